@@ -120,6 +120,8 @@ def observe(fn, port):
     try:
         fn()
         return list(port.writes), None
+    except ebbfake.Endless:
+        return list(port.writes), "does not return (endless reads)"
     except Exception as ex:  # pylint: disable=broad-except
         return list(port.writes), type(ex).__name__ + ": " + str(ex)[:60]
 
